@@ -11,6 +11,7 @@ use crate::verif_sync::RwLock;
 #[cfg(not(prometheus_verif))]
 use parking_lot::RwLock;
 
+use crate::desc::{is_valid_label_name, is_valid_metric_name};
 use crate::errors::{Error, Result};
 use crate::metrics::Collector;
 use crate::proto;
@@ -251,6 +252,24 @@ impl Registry {
         if let Some(ref namespace) = prefix {
             if namespace.is_empty() {
                 return Err(Error::Msg("empty prefix namespace".to_string()));
+            }
+            // The prefix becomes the head of every metric name.
+            if !is_valid_metric_name(namespace) {
+                return Err(Error::Msg(format!(
+                    "'{}' is not a valid prefix namespace",
+                    namespace
+                )));
+            }
+        }
+
+        if let Some(ref labels) = labels {
+            for name in labels.keys() {
+                if !is_valid_label_name(name) {
+                    return Err(Error::Msg(format!(
+                        "'{}' is not a valid label name",
+                        name
+                    )));
+                }
             }
         }
 
